@@ -49,6 +49,7 @@ let run (path : String.t) =
           evs := CCall c :: !evs;
           (match action with
            | "toobig" -> decr idx; evs := List.tl !evs      (* never sent: no id taken, no call in the model *)
+           | "garbage" -> evs := CReply (Some id, c) :: !evs   (* answered (the id is used up), but the reply cannot be decoded: the call's own outcome is not compared with the model *)
            | "quick" | "hold" | "slow" -> evs := CReply (Some id, c) :: !evs
            | "twice" -> evs := CReply (Some id, c) :: CReply (Some id, c) :: !evs
            | "late" -> evs := CReply (Some id, c) :: CTimeout c :: !evs
@@ -56,7 +57,7 @@ let run (path : String.t) =
            | _ -> evs := CTimeout c :: !evs)) mine;
         let st_final = crun (List.rev !evs) in
         List.iter (fun (_, k, action, _, res, _) ->
-          if action <> "toobig" then
+          if action <> "toobig" && action <> "garbage" then
           let c = n_of_int (k + 1) in
           let model_ok = List.exists (fun (c', r) -> c' = c && (match r with ResOk (p, _) -> p = c | ResTimeout -> false)) st_final.c_done in
           let model_to = List.exists (fun (c', r) -> c' = c && r = ResTimeout) st_final.c_done in
@@ -67,6 +68,10 @@ let run (path : String.t) =
         let action = if action = "late" && res = "ok:re:" ^ payload && ms >= timeout_ms then "quick" else action in
         Hashtbl.replace distinct (action ^ payload) ();
         let expect_ok = (action = "quick" || action = "hold" || action = "twice" || action = "slow") in
+        if action = "garbage" then begin
+          (* a reply that cannot be decoded ends that call in an error: not in a value, not in a timeout *)
+          if not (String.length res > 4 && String.sub res 0 4 = "err:") then (prop := false; note ("a call whose reply cannot be decoded returned " ^ res))
+        end else
         if action = "toobig" then begin
           (* a request too large to be sent fails locally: an error, never a reply, never a timeout *)
           if not (String.length res > 4 && String.sub res 0 4 = "err:") then (prop := false; note ("a request too large to be sent returned " ^ res))
